@@ -302,7 +302,7 @@ def run():
                         fixed_by_shape[fid] = f["commit"]
     ck.coverage["findings_fixed_by_source_shape"] = fixed_by_shape
     g = c10_gen.Gen(ck.rng)
-    nprog = ck.n(260, 2500)
+    nprog = ck.n(260, 2000)
     pnames = info.get("param_names", {}) if "error" not in info else {}
     named_of = dict((tuple(p), n) for p, _, n in info.get("sigs", [])) if "error" not in info else {}
 
